@@ -1174,5 +1174,36 @@ seed("c16-client-rcpt-recorded-early", "C16", "R-recipients-as-accepted", "clien
 	}
 	return nil""", "a refused recipient stays in the client's list: Close waits for a reply that never comes")
 
+seed("c11-notify-empty-elements-dropped", "C11", "R-enum-whitelist", "conn.go",
+"""			for _, val := range strings.Split(value, ",") {""", """			for _, val := range strings.FieldsFunc(value, func(r rune) bool { return r == ',' }) {""", "NOTIFY=SUCCESS, and NOTIFY=A,,B are accepted")
+seed("c04-binarymime-survives-refused-mail", "C04", "R-binarymime-per-mail", "conn.go",
+"""	opts := &MailOptions{}
+
+	c.binarymime = false
+""", """	opts := &MailOptions{}
+
+""", "BODY=BINARYMIME of a refused MAIL makes the next plain message's DATA fail",
+more=[("""	c.bdatStatus = nil
+	c.bytesReceived = 0
+
+	if c.session != nil {
+		c.session.Reset()""", """	c.bdatStatus = nil
+	c.bytesReceived = 0
+	c.binarymime = false
+
+	if c.session != nil {
+		c.session.Reset()""")])
+seed("c13-collector-without-pipe", "C13", "R-collector-with-pipe", "conn.go",
+"""	if c.bdatPipe == nil {
+		var r *io.PipeReader
+		r, c.bdatPipe = io.Pipe()""", """	if size == 0 && !last {
+		c.writeResponse(250, EnhancedCode{2, 0, 0}, "Continue")
+		return
+	}
+
+	if c.bdatPipe == nil {
+		var r *io.PipeReader
+		r, c.bdatPipe = io.Pipe()""", "an empty first chunk creates the collector but no pipe: a later RCPT is accepted and has no status slot")
+
 json.dump(S, open(os.path.join(os.path.dirname(os.path.abspath(__file__)), "bank.json"), "w"), indent=1)
 print(len(S), "seeds")
